@@ -180,7 +180,7 @@ def shard(dtf, N, tier, pushes_list=None):
                             got = ring.rt.select(float(t), ifn, tolerance=float(tol), offset=off, interp_kwargs=ikw)
                             got = got.to(torch.float64).tolist()
                             err = None
-                        except ValueError as ex:
+                        except Exception as ex:
                             got, err = None, ex
                         if loc[0] == "invalid":
                             tally.mark("outcome", "invalid")
@@ -232,7 +232,7 @@ def shard(dtf, N, tier, pushes_list=None):
                                 got = ring.rt.select(tt, ifn, tolerance=float(tol), offset=off, interp_kwargs=ikw)
                                 got = got.to(torch.float64).tolist()
                                 err = None
-                            except ValueError as ex:
+                            except Exception as ex:
                                 got, err = None, ex
                             if bad_in:
                                 if err is None:
@@ -253,7 +253,12 @@ def shard(dtf, N, tier, pushes_list=None):
                             ok32 = tdtype == torch.float64 or all(F(float(x)) in (ta, tb) for x in t2.reshape(-1))
                             if ok32 and ta in scalar_res and tb in scalar_res:
                                 tally.add("evaluations")
-                                got = ring.rt.select(t2, ifn, tolerance=float(tol), offset=off, interp_kwargs=ikw).to(torch.float64).tolist()
+                                try:
+                                    got = ring.rt.select(t2, ifn, tolerance=float(tol), offset=off, interp_kwargs=ikw).to(torch.float64).tolist()
+                                except Exception as ex:
+                                    tally.violation(f"select:tensorD:raised:{type(ex).__name__}", {"op": "select", "dt": float(dt), "N": N, "pushes": pushes, "offset": off,
+                                                    "tol": float(tol), "time": t2.tolist(), "interp": iname, "mode": "tensorD"}, f"valid trailing-D times rejected: {ex!r}", None, repr(ex))
+                                    continue
                                 exp = [[scalar_res[ta][0], scalar_res[tb][0]], [scalar_res[tb][1], scalar_res[ta][1]]]
                                 if not all(close(g, x, exact_fn) for gr, xr in zip(got, exp) for g, x in zip(gr, xr)):
                                     tally.violation(f"select:tensorD!=scalar:{iname}", {"op": "select", "dt": float(dt), "N": N, "pushes": pushes, "offset": off,
@@ -284,7 +289,7 @@ def shard(dtf, N, tier, pushes_list=None):
                                 try:
                                     r2.rt.insert(torch.tensor(x), targ, efn, tolerance=float(tol), offset=off, inplace=inplace, extrap_kwargs=ekw)
                                     err = None
-                                except ValueError as ex:
+                                except Exception as ex:
                                     err = ex
                                 if loc[0] == "invalid":
                                     if err is None:
@@ -339,7 +344,12 @@ def shard(dtf, N, tier, pushes_list=None):
                                             continue
                                         ifn, ikw = INTERPS[inn]
                                         tally.add("evaluations")
-                                        back = r2.rt.select(float(t), ifn, tolerance=float(tol), offset=off, interp_kwargs=ikw).to(torch.float64).tolist()
+                                        try:
+                                            back = r2.rt.select(float(t), ifn, tolerance=float(tol), offset=off, interp_kwargs=ikw).to(torch.float64).tolist()
+                                        except Exception as ex:
+                                            tally.violation(f"roundtrip:select-raised:{type(ex).__name__}", {**case, "interp": inn}, f"select at the time just "
+                                                            f"inserted at raised {ex!r}", x, repr(ex))
+                                            continue
                                         if not all(abs(b - xx) <= 1e-3 for b, xx in zip(back, x)):
                                             tally.violation(f"roundtrip:{en}->{inn}:{kind}", {**case, "interp": inn}, f"insert then select at {float(t)} "
                                                             f"returned {back}, inserted {x}", x, back)
